@@ -19,7 +19,7 @@ META = {
     "assumptions": ["conventions as documented: spatial twists (omega, v) applied on the left, wrenches (moment, force) about the space origin",
                     "weights in carryMassCalc act at the top-plate origin and at shaft_grav_center from the top joint along each leg"],
 }
-REQUIRED_CLAUSES = ["jacobian.derivative", "statics.equilibrium", "statics.inverse", "statics.sum_actuator", "statics.body", "statics.body_inverse",
+REQUIRED_CLAUSES = ["jacobian.derivative", "jacobian.explicit_elsewhere", "statics.equilibrium", "statics.inverse", "statics.sum_actuator", "statics.body", "statics.body_inverse",
                     "carry_mass"]
 
 
@@ -39,7 +39,9 @@ def gen_case(rng):
         steps.insert(0, {"op": "spin", "rot": float(rng.uniform(-PI, PI))})
     return {"g": g, "steps": steps, "rel": splib.gen_rel_pose(rng, model.h).tolist(), "V": (rng.normal(size=6) * [1, 1, 1, 0.5, 0.5, 0.5]).tolist(),
             "W": (rng.normal(size=6) * rng.choice([1.0, 30.0, 300.0])).tolist(), "h": float(10 ** rng.uniform(-4, math.log10(2e-3))),
-            "grav": (np.array([0, 0, -9.81]) if rng.random() < 0.6 else rng.normal(size=3) * 9.81).tolist()}
+            "grav": (np.array([0, 0, -9.81]) if rng.random() < 0.6 else rng.normal(size=3) * 9.81).tolist(),
+            "other_base": np.concatenate([rng.uniform(-3, 3, 3), gen.rotvec(rng, ["zero", "generic2"])]).tolist(),
+            "other_rel": splib.gen_rel_pose(rng, model.h, 0.5).tolist()}
 
 
 def run_case(case, ctx, bm):
@@ -101,10 +103,24 @@ def run_case(case, ctx, bm):
     ctx.err("jacobian.derivative", e)
     if e > 1e-6:
         viol("jacobian.derivative", "jacobian.derivative", rel_err=e, cond=cond)
-    # explicit-argument form must agree with the stateful one
+    # explicit-argument form must agree with the stateful one - also while the platform itself stands somewhere else
     J2 = np.asarray(sp.inverseJacobian(top_plate_pos=tm(X.copy()), bottom_plate_pos=tm(B.copy())), dtype=float)
     if tol.maxabs(J2 - Jinv) > 1e-9 * max(1.0, tol.maxabs(Jinv)):
         viol("jacobian.derivative", "explicit_args_differ", err=tol.maxabs(J2 - Jinv))
+    B2 = se3.taa_to_T(case["other_base"])
+    X2 = B2 @ se3.taa_to_T(case["other_rel"])
+    sp.IK(top_plate_pos=tm(X2.copy()), bottom_plate_pos=tm(B2.copy()), protect=True)
+    ctx.clause("jacobian.explicit_elsewhere")
+    J3 = np.asarray(sp.inverseJacobian(top_plate_pos=tm(X.copy()), bottom_plate_pos=tm(B.copy())), dtype=float)
+    if tol.maxabs(J3 - Jinv) > 1e-9 * max(1.0, tol.maxabs(Jinv)):
+        viol("jacobian.explicit_elsewhere", "explicit_args_differ_when_standing_elsewhere", err=tol.maxabs(J3 - Jinv))
+    Wv0 = np.array(case["W"], dtype=float)
+    tau3 = np.asarray(sp.staticForces(Wrench(Wv0.reshape((6, 1)).copy()), tm(X.copy()), tm(B.copy())), dtype=float).reshape(-1)
+    if float(np.linalg.norm(Jinv.T @ tau3 - Wv0)) > 1e-8 * max(1.0, cond / 100.0) * max(1e-9, float(np.linalg.norm(Wv0))):
+        viol("jacobian.explicit_elsewhere", "static_forces_explicit_args_when_standing_elsewhere", err=float(np.linalg.norm(Jinv.T @ tau3 - Wv0)))
+    if tol.maxabs(sp.getTopT().gTM() - X2) > 1e-12 * max(1.0, tol.maxabs(X2)) or tol.maxabs(sp.getBottomT().gTM() - B2) > 1e-12 * max(1.0, tol.maxabs(B2)):
+        viol("jacobian.explicit_elsewhere", "explicit_query_moved_platform")
+    sp.IK(top_plate_pos=tm(X.copy()), bottom_plate_pos=tm(B.copy()), protect=True)
 
     Wv = np.array(case["W"], dtype=float)
     Wn = max(1e-9, float(np.linalg.norm(Wv)))
